@@ -43,7 +43,7 @@ def change_summary(c):
 
 
 def run_inproc(files, flags, *, format_command=None, block_black=False, pyproject=None,
-               workdir=None, keep=False, trace_calls=False, run_tests=True, storage_files=None, active=True):
+               workdir=None, keep=False, trace_calls=False, run_tests=True, storage_files=None, active=True, black_raises=False):
     """files: {name: str|bytes}.  flags: iterable of category names.
     Returns a dict (see keys below).  Never raises for failures of the code under test."""
     from inline_snapshot import _config, _problems
@@ -66,9 +66,19 @@ def run_inproc(files, flags, *, format_command=None, block_black=False, pyprojec
     registered = []
     if block_black:
         sys.modules["black"] = None
+    saved_format_str = None
+    if black_raises:
+        import black as _black
+
+        def _boom(*a, **k):
+            raise RuntimeError("injected black failure")
+        saved_format_str = _black.format_str
+        _black.format_str = _boom
+    saved_cwd = os.getcwd()
     try:
         if pyproject is not None:
             (base / "pyproject.toml").write_text(pyproject)
+            os.chdir(base)      # black's options are looked up from the current directory (like a session started in the project)
         for name, content in files.items():
             p = base / name
             p.parent.mkdir(parents=True, exist_ok=True)
@@ -164,6 +174,10 @@ def run_inproc(files, flags, *, format_command=None, block_black=False, pyprojec
         _problems.all_problems = set()
         for m in registered:
             sys.modules.pop(m, None)
+        os.chdir(saved_cwd)
+        if saved_format_str is not None:
+            import black as _black
+            _black.format_str = saved_format_str
         if block_black:
             if saved_black == "absent":
                 sys.modules.pop("black", None)
